@@ -136,6 +136,12 @@ def classes():
     d = {n: getattr(cc, n) for n in DAE}
     d['ValueError'] = ValueError
     d['KeyError'] = KeyError
+    d['Exception'] = Exception
+    d['BaseException'] = BaseException
+    d['object'] = object
+    d['Tuple:DaeBrokenRefError+DaeMalformedError'] = (cc.DaeBrokenRefError, cc.DaeMalformedError)
+    d['Tuple:ValueError+DaeError'] = (ValueError, cc.DaeError)
+    d['Tuple:ValueError+KeyError'] = (ValueError, KeyError)
     for n in DAE:
         d['UserSub:' + n] = type('User' + n, (getattr(cc, n),), {})
     return d
@@ -395,6 +401,31 @@ def run_doc_case(case, bases, base_cache):
             and 'DaeUnsupportedError' not in by_name['base']['err_names'] and strict['esc_name'] != 'DaeUnsupportedError':
         fail('unlisted-aborts', 'a list used as ignore= for ANOTHER document, whose mask was extended afterwards, now ignores more: '
                                 '%s/%s instead of %s' % (again['esc_name'], again['err_names'], strict['esc_name']))
+    # ---- clause: the ignore mask accepts whatever isinstance(error, entry) accepts: classes above DaeError
+    # (Exception, BaseException, object) and tuples of classes, and nothing else
+    if wf and strict['esc'] and strict['esc_dae'] and strict['esc_name'] in K:
+        E = K[strict['esc_name']]
+        leaves = [K[x] for x in LEAVES if not issubclass(E, K[x])]
+        h = sum(ord(c) for c in label) + len(data)
+        entries = [('Exception', Exception), ('BaseException', BaseException), ('object', object),
+                   ('(%s, ValueError)' % strict['esc_name'], (E, ValueError)),
+                   ('(KeyError, DaeError)', (KeyError, K['DaeError'])),
+                   ('(ValueError, KeyError)', (ValueError, KeyError)),
+                   ('(%s,)' % ', '.join(c.__name__ for c in leaves[:2]), tuple(leaves[:2]))]
+        for nm, X in (entries[h % 3], entries[3 + h % 2], entries[5 + h % 2]):
+            masks_it = isinstance(E('x'), X)
+            r = load(data, [X])
+            if r['esc'] and not r['esc_dae']:
+                fail('raw-exception', 'loading with ignore=[%s] lets a raw %s escape (%s): %s' % (nm, r['esc_name'], label, r['esc_msg']),
+                     r['esc_name'])
+            elif masks_it and r['esc_name'] == strict['esc_name'] and r['errs'] == strict['errs']:
+                fail('ignore-entry', 'ignore=[%s] does not ignore the %s although isinstance(error, %s) holds: the load still aborts'
+                     % (nm, strict['esc_name'], nm), strict['esc_name'])
+            elif masks_it and strict['esc_name'] not in r['err_names']:
+                fail('ignore-entry', 'ignore=[%s]: the ignored %s is not recorded (%s)' % (nm, strict['esc_name'], r['err_names']))
+            elif not masks_it and (r['esc_name'], r['errs']) != (strict['esc_name'], strict['errs']):
+                fail('ignore-entry', 'ignore=[%s] changes the outcome although isinstance(error, %s) is false: %s/%s instead of %s'
+                     % (nm, nm, r['esc_name'], r['err_names'], strict['esc_name']))
     tr = load(data, [K['DaeError']], traced=True)
     events = events_of(tr)
     full = by_name['base']
